@@ -65,6 +65,29 @@ def run(prog):
     res.inst("override-before-contains", ok=ok)
     if not ok:
         res.viol("override-before-contains", f.loc, "the repeat path inspects the key list before applying global overrides")
+    # the repeat path decides on the same key list as the press path: both run the unmod/unshift adjustment before the
+    # override pass (the key lists of unmod/unshift are not consulted behind the overrides' back)
+    ADJ = "kanata_state_machine::kanata::apply_unmod_unshift_keys"
+    hk = prog.fn("kanata_state_machine::kanata::Kanata::handle_keystate_changes")
+    sib = {}
+    for g in (f, hk):
+        adj = blocks_calling(g, g.reachable(), [ADJ])
+        ovs = blocks_calling(g, g.reachable(), ["kanata_parser::cfg::key_override::Overrides::override_keys"])
+        sib[g.norm.split("::")[-1]] = bool(adj) and bool(ovs) and all(any(g.dominates(ab, ob) for ab, _ in adj) for ob, _ in ovs)
+    bypass = []
+    for bi, t in f.calls():
+        if (callee_name(t) or "").endswith("::contains") and t["args"]:
+            from rules.r_doaction import receiver_fields
+            fl = receiver_fields(f, t)
+            if fl and fl[-1] in ("unshifted_keys", "unmodded_keys"):
+                bypass.append(t.get("ln"))
+    ok = all(sib.values()) and not bypass
+    res.inst("same-key-list-as-press-path", adjusted_before_overrides=sib, direct_lookups=len(bypass))
+    res.oblige(ok)
+    if not ok:
+        res.viol("same-key-list-as-press-path", f.loc,
+                 "the repeat path does not build its key list like the press path (unmod/unshift adjustment before the override pass: "
+                 "%s; direct look-ups in the unmod/unshift lists: %d): it can repeat a key that an override has replaced" % (sib, len(bypass)))
     # keys without an entry in the per-layer output tables (unmapped keys, transparent fall-through to defsrc) are
     # handled by the last, table-less lookup; the tables contain the outputs of global overrides, so that lookup has
     # to ask the override table itself
@@ -182,6 +205,15 @@ def run_collect(prog):
             n += loops
             res.inst("loops/" + f.norm, loops=loops, early_exits=len(ex))
             res.oblige(not ex)
+            # what was collected stays collected: no clear / truncate / pop / retain on a Vec<OsCode> in the builders
+            for bi, t in f.calls():
+                cn = callee_name(t) or ""
+                if cn.split("::")[-1] in ("clear", "truncate", "pop", "retain", "remove", "swap_remove", "drain") and cn.startswith("alloc::vec::Vec") \
+                        and "OsCode" in (f.place_ty(t["args"][0]) or "" if t["args"] else ""):
+                    res.oblige(False)
+                    res.viol("removal/" + f.norm, "%s:%s" % (f.file, t.get("ln")),
+                             "%s removes already collected outputs (%s): keys that a physical key can produce are missing from the "
+                             "repeat table" % (f.norm.split("::")[-1], cn.split("::")[-1]))
             for (ll, xl) in ex[:3]:
                 res.viol("early-exit/" + f.norm, "%s:%s" % (f.file, xl),
                          "the loop at line %s of %s can be left before all elements were visited: outputs of the remaining elements are "
